@@ -37,11 +37,20 @@ def instances(tier):
         nocc = sum(len(__import__("re").findall(r"\{\d+\}", t)) for t in sk.files.values())
         for q in range(nocc):
             out.append(("%s.q%02d" % (sk.name, q), dict(k=k, q=q)))
+        if tier == "thorough":
+            from harness.bcommon import len2_variants
+            import re as _re
+
+            slots_in_order = [int(x) for t in sk.files.values() for x in _re.findall(r"\{(\d+)\}", t)]
+            for suf, slot in len2_variants(sk, tier)[1:]:
+                out.append(("%s.q%02d%s" % (sk.name, slots_in_order.index(slot), suf), dict(k=k, q=slots_in_order.index(slot), len2=slot)))
     return out
 
 
 def make_run(p):
-    sk = CORPUS[p["k"]]
+    from harness.bcommon import with_len2
+
+    sk = with_len2(CORPUS[p["k"]], p.get("len2"))
 
     def run():
         E = core.ENGINE
